@@ -937,6 +937,14 @@ def build_jobs(tier, seed):
             for i in range(0, len(names), 2):
                 jobs.append({"kind": "template", "arch": arch, "tiny": tiny, "names": names[i:i + 2], "reps": reps,
                              "seed": seed, "tier": tier})
+    if tier != "quick":
+        # "for all shipped models": every non-empty shipped model, untrimmed, through every template once
+        # (the edits only touch forms / header data the corpus kernels use, whatever the model's size)
+        others = [a for a in env.X86_ALL + env.ARM_ALL if a not in archs]
+        for arch in others:
+            for i in range(0, len(names), 2):
+                jobs.append({"kind": "template", "arch": arch, "tiny": False, "names": names[i:i + 2], "reps": 1,
+                             "seed": seed, "tier": tier})
     # systematic sweep over the crash point of the cache write
     sweep_archs = [("n1", True), ("zen1", True), ("tx2", False)] if tier == "quick" else \
         [(a, t) for a in archs for t in (True, False)]
